@@ -26,6 +26,7 @@ import (
 	"math/big"
 	"os"
 	"strings"
+	"time"
 	"unicode/utf8"
 
 	"github.com/ontio/ontology-crypto/ec"
@@ -184,19 +185,54 @@ type macc struct {
 	scheme   string
 	live     bool
 	imported bool
+	// unlock window (process memory of the wallet client): opened by a successful UnLockAccount at
+	// fake time unlockAt for unlockFor; closed by LockAccount, deletion, restart or expiry
+	unlocked  bool
+	unlockAt  time.Duration
+	unlockFor time.Duration
 }
 
 type c43sim struct {
-	run     *kernel.Run
-	path    string
-	cli     account.Client
-	accs    []*macc // by ordinal
-	scrypt  int     // scrypt evaluations so far
-	budget  int
-	sig     []byte
+	run                                                     *kernel.Run
+	path                                                    string
+	cli                                                     account.Client
+	accs                                                    []*macc // by ordinal
+	scrypt                                                  int     // scrypt evaluations so far
+	budget                                                  int
+	sig                                                     []byte
 	created, restartsWithAccounts, mutations, wrongRejected int
-	mutatedSinceRestart                                    bool
-	restartAfterMutation                                   bool
+	mutatedSinceRestart                                     bool
+	restartAfterMutation                                    bool
+	now                                                     time.Duration // fake time elapsed in the bubble (sum of executed "tick" steps)
+}
+
+// isUnlocked: the account was unlocked with its password and the window is still open.
+func (s *c43sim) isUnlocked(m *macc) bool {
+	return m.live && m.unlocked && s.now-m.unlockAt < m.unlockFor
+}
+
+// wrongCall is noted before every password-taking call that is given a wrong password.
+func (s *c43sim) wrongCall(m *macc) {
+	if s.isUnlocked(m) {
+		s.run.Probe("wrong_password_call_while_unlocked")
+	}
+}
+
+func (s *c43sim) snap() []byte {
+	b, err := os.ReadFile(s.path)
+	if err != nil {
+		return nil
+	}
+	return b
+}
+
+// unchanged: a refused operation must leave the wallet file byte-identical.
+func (s *c43sim) unchanged(before []byte, why, what string) bool {
+	if after := s.snap(); !bytes.Equal(before, after) {
+		s.fail("refused-operation-changed-file", "%s: %s was given a wrong password, yet the wallet file changed (%d -> %d bytes)", why, what, len(before), len(after))
+		return false
+	}
+	return true
 }
 
 func (s *c43sim) live() []*macc {
@@ -401,6 +437,7 @@ func (s *c43sim) verify(m *macc, why string, via int64, nWrong int, rng *kernel.
 			break
 		}
 		tried++
+		s.wrongCall(m)
 		var a2 *account.Account
 		var e2 error
 		var p2 string
@@ -493,6 +530,29 @@ func (s *c43sim) cheapInner(why string) bool {
 			s.fail("default-mismatch", "%s: default account is not account #%d", why, m.ord)
 			return false
 		}
+	}
+	// the key is handed out without a password only inside an unlock window opened with the password
+	for _, m := range s.accs {
+		u := s.cli.GetUnlockAccount(m.addr)
+		if u == nil {
+			continue
+		}
+		if !s.isUnlocked(m) {
+			still := false
+			for _, o := range live {
+				still = still || (o != m && o.addr == m.addr && s.isUnlocked(o))
+			}
+			if !still {
+				s.fail("key-handed-out-without-unlock", "%s: GetUnlockAccount returns the key of account #%d (live=%v) although no unlock window is open (unlocked=%v, opened %v ago for %v)", why, m.ord, m.live, m.unlocked, s.now-m.unlockAt, m.unlockFor)
+				return false
+			}
+			continue
+		}
+		if d := s.sameKey(m, u); d != "" {
+			s.fail("wrong-key-returned", "%s: GetUnlockAccount for account #%d: %s", why, m.ord, d)
+			return false
+		}
+		s.run.Probe("unlocked_key_served")
 	}
 	// index enumeration yields exactly the live accounts
 	seen := map[string]int{}
@@ -588,21 +648,23 @@ func init() {
 	kernel.Register(&kernel.Check{
 		ID: "C43", Level: "exploration", Engine: "E6 wallet (account.ClientImpl on a real file, restart-from-file)",
 		Rule: "case = seeded sequence of wallet operations (NewAccount for ECDSA P-224/P-256/P-384/P-521/secp256k1, SM2, Ed25519 with matching and mismatching signature schemes; ImportAccount of derived keys; " +
-			"SetLabel; SetDefaultAccount; ChangePassword with right/wrong old password; DeleteAccount with right/wrong password; ChangeSigScheme; lookups by address/label/index/default) " +
+			"SetLabel; SetDefaultAccount; ChangePassword with right/wrong old password; DeleteAccount with right/wrong password; ChangeSigScheme; lookups by address/label/index/default; UnLockAccount with expiry 0/1/2/5/60/3600/-1 s and right/wrong password, LockAccount, clock ticks of 0.5 s..1 h that let unlock windows expire) " +
 			"with process restart (reopen from the file) as a generated step and once more at the end; passwords are prefixes/variants of three byte streams (lengths 0..5000, binary and text, sharing prefixes), " +
 			"labels include empty, JSON-hostile, non-ASCII and very long ones; two runs in five use a wallet switched (exported ToLowSecurity on the empty wallet) to the low-security scrypt parameters, most of those create accounts by import only. After every step the metadata of every account is compared with the model " +
 			"and the touched account is decrypted with its password and with sampled other passwords (previous passwords first); after a restart every account is. " +
+			"Right after every successful unlock each password-taking operation (four getters, DeleteAccount, UnLockAccount) is given the empty and one other wrong password and must refuse without touching the file; GetUnlockAccount may hand out a key only inside a window opened with the right password. " +
 			"evaluations = decrypt attempts compared; a run is non-trivial when >=2 accounts were created, a restart followed a mutation and reloaded >=1 account, and >=1 wrong password was rejected; distinct by digest of the operation outcomes",
 		Real: []string{"account.ClientImpl (NewAccount, ImportAccount, SetLabel, SetDefaultAccount, ChangePassword, DeleteAccount, ChangeSigScheme, all Get* lookups)", "account.WalletData JSON save/load on a real file (tmpfs)",
 			"ontology-crypto keypair: key generation, scrypt + AES-GCM key protection (trusted dependency, real)"},
-		Stub: []string{"command-line layer (cmd/account_cmd.go): its duplicate-address guard before ImportAccount is mirrored by the harness", "unlock timers (UnLockAccount reads the wall clock; not exercised)"},
+		Stub: []string{"command-line layer (cmd/account_cmd.go): its duplicate-address guard before ImportAccount is mirrored by the harness", "wall clock: the run executes inside a testing/synctest bubble, UnLockAccount/GetUnlockAccount read the bubble's fake clock, which only the plan's tick steps move"},
 		Assumptions: []string{"process-restart model only: the wallet file is whatever the last completed Save left; torn or partial wallet writes are outside the property and not injected",
 			"two passwords with the same HMAC-SHA256 key normal form (zero-padded to 64 bytes; SHA-256 digest if longer) are the same password for scrypt/PBKDF2 and are never sampled as 'another password' (p and p+\"\\x00\" are equivalent)",
 			"keys and salts come from crypto/rand inside poly; the trace identifies accounts by ordinal and is independent of them",
 			"ImportAccount is only called for addresses not present in the wallet, as the command line does"},
 		QuickRuns: 32, ThoroughRuns: 800, QuickCap: 40, ThoroughCap: 900,
 		RequiredProbes: []string{"account_created", "account_imported", "password_changed", "account_deleted", "restart_with_accounts", "wrong_password_rejected", "old_password_rejected",
-			"wrong_password_operation_refused", "label_changed", "default_changed"},
+			"wrong_password_operation_refused", "label_changed", "default_changed",
+			"unlock_window_opened", "wrong_password_call_while_unlocked", "wrong_password_rejected_while_unlocked", "unlock_expired"},
 		Generate: genC43,
 		Execute:  execC43,
 	})
@@ -661,7 +723,7 @@ func genC43(rng *kernel.RNG, idx int, tier string) *kernel.Plan {
 				cost += 4
 			}
 			live++
-		case r < 45:
+		case r < 38:
 			p := pw()
 			mode := int64(0)
 			if rng.Chance(wrongP) {
@@ -669,7 +731,7 @@ func genC43(rng *kernel.RNG, idx int, tier string) *kernel.Plan {
 			}
 			steps = append(steps, st("chpass", int64(rng.Intn(8)), mode, p[0], p[1], p[2]))
 			cost += 6
-		case r < 59:
+		case r < 49:
 			mode := int64(0)
 			if rng.Chance(wrongP + 0.1) {
 				mode = int64(1 + rng.Intn(6))
@@ -683,14 +745,40 @@ func genC43(rng *kernel.RNG, idx int, tier string) *kernel.Plan {
 			if mode == 0 && live > 1 {
 				live--
 			}
-		case r < 70:
+		case r < 57:
 			steps = append(steps, st("label", int64(rng.Intn(8)), int64(rng.Intn(len(labelTable)))))
 			cost += 1
-		case r < 80:
+		case r < 64:
 			steps = append(steps, st("default", int64(rng.Intn(8))))
 			cost += 1
-		case r < 86:
+		case r < 68:
 			steps = append(steps, st("sigscheme", int64(rng.Intn(8)), int64(rng.Intn(len(allSchemes)))))
+			cost += 1
+		case r < 79:
+			mode := int64(0)
+			if rng.Chance(wrongP * 0.5) {
+				mode = int64(1 + rng.Intn(6))
+			}
+			sel := int64(rng.Intn(8))
+			steps = append(steps, st("unlock", sel, int64(rng.Intn(len(unlockExpiries))), mode))
+			cost += 2
+			if mode == 0 {
+				cost += 7 // the sweep of wrong passwords over every password-taking operation
+				// often follow up on the same account: let the window expire (or not), then try wrong passwords again
+				if rng.Chance(0.45) {
+					steps = append(steps, st("tick", int64(rng.Intn(len(tickDurations)))))
+					cost += 2
+				}
+				if rng.Chance(0.5) {
+					steps = append(steps, st("get", sel, int64(rng.Intn(4)), int64(1+rng.Intn(6))))
+					cost += 1
+				}
+			}
+		case r < 82:
+			steps = append(steps, st("lock", int64(rng.Intn(8))))
+			cost += 1
+		case r < 89:
+			steps = append(steps, st("tick", int64(rng.Intn(len(tickDurations)))))
 			cost += 1
 		default:
 			mode := int64(0)
@@ -711,7 +799,13 @@ func (s *c43sim) wrongFor(m *macc, mode int64) (string, []byte) {
 	return names[j], pws[j]
 }
 
+// execC43 runs the whole case inside a synctest bubble: the wallet's unlock windows read
+// time.Now(), which there is a fake clock moved only by the plan's "tick" steps.
 func execC43(run *kernel.Run) {
+	kernel.InBubble(func() { execC43Body(run) })
+}
+
+func execC43Body(run *kernel.Run) {
 	p := run.Plan
 	dir := kernel.TempDir("wallet")
 	defer os.RemoveAll(dir)
@@ -926,6 +1020,10 @@ func execC43(run *kernel.Run) {
 				oldName, old = s.wrongFor(m, a(1))
 			}
 			var err error
+			before := s.snap()
+			if wrong {
+				s.wrongCall(m)
+			}
 			if !s.guard("ChangePassword", func() { err = s.cli.ChangePassword(m.addr, old, newPw) }) {
 				break
 			}
@@ -940,6 +1038,9 @@ func execC43(run *kernel.Run) {
 					run.Probe("wrong_password_operation_refused")
 				} else {
 					run.Probe("chpass_old_equals_new_noop")
+				}
+				if !s.unchanged(before, why, "ChangePassword") {
+					break
 				}
 				s.verify(m, why, 0, 0, rng) // nothing changed: still opens with its password
 				break
@@ -969,6 +1070,10 @@ func execC43(run *kernel.Run) {
 			}
 			var acc *account.Account
 			var err error
+			before := s.snap()
+			if wrong {
+				s.wrongCall(m)
+			}
 			if !s.guard("DeleteAccount", func() { acc, err = s.cli.DeleteAccount(m.addr, pw) }) {
 				break
 			}
@@ -980,6 +1085,9 @@ func execC43(run *kernel.Run) {
 					break
 				}
 				run.Probe("wrong_password_operation_refused")
+				if !s.unchanged(before, why, "DeleteAccount") {
+					break
+				}
 				if !m.def {
 					s.verify(m, why, 0, 0, rng)
 				}
@@ -992,6 +1100,7 @@ func execC43(run *kernel.Run) {
 				}
 				m.live = false
 				m.def = false
+				m.unlocked = false
 				s.mutated()
 				run.Probe("account_deleted")
 				if a2, e2 := s.cli.GetAccountByAddress(m.addr, m.pw); a2 != nil || e2 != nil {
@@ -1015,6 +1124,7 @@ func execC43(run *kernel.Run) {
 			var acc *account.Account
 			var err error
 			var path string
+			s.wrongCall(m)
 			if !s.guard("GetAccount", func() { acc, err, path = s.decrypt(m, a(1), pw) }) {
 				break
 			}
@@ -1025,6 +1135,89 @@ func execC43(run *kernel.Run) {
 			}
 			s.wrongRejected++
 			run.Probe("wrong_password_rejected")
+		case "unlock":
+			m := s.pick(a(0))
+			if m == nil {
+				s.note("unlock: no account")
+				break
+			}
+			exp := unlockExpiries[int(abs64(a(1))%int64(len(unlockExpiries)))]
+			pw, pwName := m.pw, "current"
+			wrong := a(2) != 0
+			if wrong {
+				pwName, pw = s.wrongFor(m, a(2))
+				s.wrongCall(m)
+			}
+			var err error
+			before := s.snap()
+			if !s.guard("UnLockAccount", func() { err = s.cli.UnLockAccount(m.addr, exp, pw) }) {
+				break
+			}
+			s.scrypt++
+			s.note("unlock #%d for %ds pw=%s (window open before: %v) -> ok=%v", m.ord, exp, pwName, s.isUnlocked(m), err == nil)
+			if wrong {
+				if err == nil {
+					s.fail("wrong-password-accepted", "%s: UnLockAccount on account #%d (unlock window open: %v) succeeded with a wrong password (%s)", why, m.ord, s.isUnlocked(m), pwName)
+					break
+				}
+				run.Probe("wrong_password_operation_refused")
+				s.unchanged(before, why, "UnLockAccount")
+				break // the model's window is unchanged; the cheap check notices a renewed or opened one
+			}
+			if err != nil {
+				run.Probe("unlock_refused")
+				break
+			}
+			m.unlocked, m.unlockAt, m.unlockFor = true, s.now, time.Duration(exp)*time.Second
+			run.Fault("unlock")
+			if exp > 0 {
+				run.Probe("unlock_window_opened")
+			}
+			s.unlockedSweep(m, why, rng)
+		case "lock":
+			m := s.pick(a(0))
+			if m == nil {
+				s.note("lock: no account")
+				break
+			}
+			was := s.isUnlocked(m)
+			if !s.guard("LockAccount", func() { s.cli.LockAccount(m.addr) }) {
+				break
+			}
+			m.unlocked = false
+			if was {
+				run.Fault("lock")
+			}
+			s.note("lock #%d (window was open: %v)", m.ord, was)
+			if was && s.scrypt < s.budget {
+				// locked again: a wrong password is refused, the right one works
+				s.verify(m, why, int64(rng.Intn(4)), 1, rng)
+			}
+		case "tick":
+			d := tickDurations[int(abs64(a(0))%int64(len(tickDurations)))]
+			var open []*macc
+			for _, m := range s.live() {
+				if s.isUnlocked(m) {
+					open = append(open, m)
+				}
+			}
+			kernel.Advance(d)
+			s.now += d
+			run.SimTimeMs += int64(d / time.Millisecond)
+			run.Fault("clock_advance")
+			expired := 0
+			for _, m := range open {
+				if !s.isUnlocked(m) {
+					expired++
+					run.Fault("unlock_expired")
+				}
+			}
+			s.note("tick %v: %d of %d open unlock windows expired", d, expired, len(open))
+			for _, m := range open {
+				if !s.isUnlocked(m) && s.scrypt < s.budget {
+					s.verify(m, why, int64(rng.Intn(4)), 1, rng)
+				}
+			}
 		case "restart":
 			s.restart(why, rng, 1, "restart")
 		default:
@@ -1056,6 +1249,99 @@ func execC43(run *kernel.Run) {
 	run.Sample = map[string]interface{}{"low_security_wallet": p.C("lowsec", 0) != 0, "accounts_created": s.created, "live_at_end": len(s.live()), "key_derivations": s.scrypt, "plan": ps}
 }
 
+var unlockExpiries = []int{0, 1, 2, 5, 60, 3600, -1}
+var tickDurations = []time.Duration{500 * time.Millisecond, time.Second, 2 * time.Second, 5 * time.Second, 61 * time.Second, time.Hour}
+
+// unlockedSweep runs right after a successful UnLockAccount: every password-taking operation
+// (the four getters, DeleteAccount, UnLockAccount) is given the empty password and one other
+// sampled wrong password (another account's, a near miss, a previous one) and must refuse and
+// leave the wallet file untouched; then the right password must still give the same key.
+// The outcome of a password-taking call never depends on the unlock window.
+func (s *c43sim) unlockedSweep(m *macc, why string, rng *kernel.RNG) bool {
+	names, pws := s.otherPasswords(m)
+	// preference order of the costly candidate: rotate between other account's / near miss / previous
+	var costly []int
+	for j, n := range names {
+		if n != "empty" {
+			costly = append(costly, j)
+		}
+	}
+	pickCostly := func() int { return costly[rng.Intn(len(costly))] }
+	before := s.snap()
+	refuse := func(op, pwName string, call func() (bool, error, string)) bool {
+		s.wrongCall(m)
+		var opened bool
+		var err error
+		var detail string
+		if !s.guard(op, func() { opened, err, detail = call() }) {
+			return false
+		}
+		pwName += detail
+		if opened || err == nil {
+			key := "other-password-accepted"
+			if op == "DeleteAccount" || op == "UnLockAccount" {
+				key = "wrong-password-accepted"
+			}
+			s.fail(key, "%s: while account #%d (%s) is unlocked, %s accepted a wrong password (%s)", why, m.ord, m.kind, op, pwName)
+			return false
+		}
+		s.wrongRejected++
+		s.run.Probe("wrong_password_rejected")
+		s.run.Probe("wrong_password_rejected_while_unlocked")
+		return s.unchanged(before, why, op)
+	}
+	for via := int64(0); via < 4; via++ {
+		tries := []int{-1} // -1 = empty password (free: refused before any key derivation)
+		if s.scrypt < s.budget+s.budget/4 {
+			tries = append(tries, pickCostly())
+		}
+		for _, j := range tries {
+			var pw []byte
+			name := "empty"
+			if j >= 0 {
+				pw, name = pws[j], names[j]
+			}
+			v := via
+			ok := refuse("GetAccount", name, func() (bool, error, string) {
+				acc, err, path := s.decrypt(m, v, pw)
+				return acc != nil, err, ", lookup by " + path
+			})
+			if j < 0 {
+				s.scrypt-- // decrypt() counted a derivation that the empty password never reaches
+			}
+			if !ok {
+				return false
+			}
+		}
+	}
+	for _, op := range []string{"DeleteAccount", "UnLockAccount"} {
+		tries := []int{-1}
+		if s.scrypt < s.budget+s.budget/4 {
+			tries = append(tries, pickCostly())
+			s.scrypt++
+		}
+		for _, j := range tries {
+			var pw []byte
+			name := "empty"
+			if j >= 0 {
+				pw, name = pws[j], names[j]
+			}
+			o := op
+			if !refuse(op, name, func() (bool, error, string) {
+				if o == "DeleteAccount" {
+					acc, err := s.cli.DeleteAccount(m.addr, pw)
+					return acc != nil, err, ""
+				}
+				return false, s.cli.UnLockAccount(m.addr, 3600, pw), ""
+			}) {
+				return false
+			}
+		}
+	}
+	s.note("unlocked sweep #%d: all password-taking operations refused wrong passwords", m.ord)
+	return s.verify(m, why, int64(rng.Intn(4)), 0, rng)
+}
+
 func (s *c43sim) mutated() { s.mutations++; s.mutatedSinceRestart = true }
 
 // restart drops the client object and reopens the wallet from its file, then checks every
@@ -1066,6 +1352,9 @@ func (s *c43sim) restart(why string, rng *kernel.RNG, nWrong int, kind string) b
 		return false
 	}
 	s.run.Fault(kind)
+	for _, m := range s.accs {
+		m.unlocked = false // unlock windows are process memory
+	}
 	live := s.live()
 	if len(live) > 0 {
 		s.restartsWithAccounts++
